@@ -23,7 +23,8 @@ MANIFEST = {
     'technique': 'boundary monitoring: exit status vs findings parsed from the same report, across option sets; fault archetypes for incomplete audits',
 }
 OPTSETS = [('color', []), ('plain', ['-n']), ('batch', ['-n', '-b']), ('verbose', ['-n', '-v']), ('json', ['-j']), ('lwarn', ['-n', '-l', 'warn']), ('lfail', ['-n', '-l', 'fail'])]
-BROKEN = ['refused', 'silent', 'close-after-banner', 'garbage-banner', 'truncated-kexinit', 'wrong-first-packet', 'bad-block-size', 'close-before-banner', 'stall-after-banner']
+BROKEN = ['refused', 'silent', 'close-after-banner', 'garbage-banner', 'truncated-kexinit', 'wrong-first-packet', 'bad-block-size', 'close-before-banner', 'stall-after-banner',
+          'payload-cut-in-namelists', 'namelist-overruns-payload', 'payload-only-cookie']
 
 
 def cases(tier, seed):
@@ -208,6 +209,19 @@ def broken_script(how, rng):
         s['faults'] = [{'at': 'kexinit', 'op': 'truncate', 'offset': rng.randrange(6, len(kp) - 1), 'then': 'close'}]
     elif how == 'wrong-first-packet':
         s['faults'] = [{'at': 'kexinit', 'op': 'patch', 'offset': 5, 'hex': '15'}]
+    elif how in ('payload-cut-in-namelists', 'namelist-overruns-payload', 'payload-only-cookie'):
+        # correctly framed packets of type 20 whose payload is not a complete KEXINIT
+        payload = wire.kexinit_payload(k)
+        if how == 'payload-cut-in-namelists':
+            cut = payload[:17 + rng.randrange(6, 60)]
+        elif how == 'payload-only-cookie':
+            cut = payload[:17]
+        else:
+            offs = {}
+            wire.kexinit_payload(k, offs)
+            f = rng.choice(['key', 'enc_sc', 'mac_cs', 'comp_sc'])
+            cut = payload[:offs[f]] + wire.u32(len(payload)) + payload[offs[f] + 4:]
+        s['faults'] = [{'at': 'kexinit', 'op': 'replace', 'hex': wire.packet(cut).hex()}]
     elif how == 'bad-block-size':
         s['faults'] = [{'at': 'kexinit', 'op': 'patch', 'offset': 0, 'hex': wire.u32(len(kp) - 4 + 3).hex()}]
     return s
